@@ -26,14 +26,12 @@ struct defs {
     struct kick_key;
     struct meet_key;
     struct vkick_key;
-    struct ckick_key;
     struct vmeet_key;
     struct skick_key;
 
     using kick = method<kick_key, int(virtual_<A&>, int), P>;
     using meet = method<meet_key, int(virtual_<A&>, int, virtual_<A&>), P>;
     using vkick = method<vkick_key, int(vp<A, P>, int), P>;
-    using ckick = method<ckick_key, int(const vp<A, P>&, int), P>;
     using vmeet = method<vmeet_key, int(vp<A, P>, vp<A, P>), P>;
     using skick = method<skick_key, int(const vsp<A, P>&), P>;
 
@@ -73,14 +71,6 @@ struct defs {
     static int vkick_b(vp<B, P> b, int x) {
         return 10300 + x + b->tag;
     }
-    // method takes the virtual_ptr by const reference (definitions by value:
-    // virtual_ptr<T*>::cast does not accept a reference type)
-    static int ckick_a(vp<A, P> a, int x) {
-        return 20100 + x + a->tag;
-    }
-    static int ckick_c(vp<C, P> c, int x) {
-        return 20200 + x + c->tag;
-    }
     // two virtual_ptr
     static int vmeet_aa(vp<A, P> a, vp<A, P> b) {
         return 31000 + a->tag + b->tag;
@@ -94,7 +84,8 @@ struct defs {
     static int vmeet_bb(vp<B, P> a, vp<B, P> b) {
         return 34000 + a->tag + b->tag;
     }
-    // virtual_shared_ptr by const reference
+    // virtual_shared_ptr by const reference (the only virtual_ptr flavour the
+    // library supports as a const-reference method parameter)
     static int skick_a(const vsp<A, P>& a) {
         return 40100 + a->tag;
     }
@@ -123,8 +114,6 @@ struct defs {
     static S::vkick::add_function<S::vkick_a> v1;                              \
     static S::vkick::add_function<S::vkick_d> v2;                              \
     static S::vkick::add_function<S::vkick_b> v3;                              \
-    static S::ckick::add_function<S::ckick_a> c1;                              \
-    static S::ckick::add_function<S::ckick_c> c2;                              \
     static S::vmeet::add_function<S::vmeet_aa> w1;                             \
     static S::vmeet::add_function<S::vmeet_dc> w2;                             \
     static S::vmeet::add_function<S::vmeet_cd> w3;                             \
@@ -145,10 +134,6 @@ struct defs {
     C16_NOINLINE int c16_call_vptr_uni__##SHAPE(                               \
         const c16::vp<c16::defs<P>::A, P>* p, int x) {                         \
         return c16::defs<P>::vkick::fn(*p, x);                                 \
-    }                                                                          \
-    C16_NOINLINE int c16_call_vptr_cref__##SHAPE(                              \
-        const c16::vp<c16::defs<P>::A, P>* p, int x) {                         \
-        return c16::defs<P>::ckick::fn(*p, x);                                 \
     }                                                                          \
     C16_NOINLINE int c16_call_vptr_multi__##SHAPE(                             \
         const c16::vp<c16::defs<P>::A, P>* p,                                  \
